@@ -115,17 +115,27 @@ def band_relation(ctx, n):
                 M = [[gama.cov_entry(res, i, j) for j in range(dim)] for i in range(dim)]
                 sc = max([1e-30] + [abs(M[i][i]) for i in range(dim)])
                 ok = all(M[i][i] >= -1e-9 * sc for i in range(dim))
+                # positive semi-definiteness by elimination with complete diagonal pivoting (stable for semi-definite matrices;
+                # without pivoting a tiny pivot of a singular free-network matrix amplifies rounding noise)
                 L = [row[:] for row in M]
-                for k in range(dim):
-                    if L[k][k] < -1e-6 * sc:
+                left = list(range(dim))
+                while left and ok:
+                    k = max(left, key=lambda i: L[i][i])
+                    if L[k][k] < -1e-7 * sc:
                         ok = False
                         break
-                    if abs(L[k][k]) <= 1e-9 * sc:
-                        continue
-                    for i in range(k + 1, dim):
+                    if L[k][k] <= 1e-9 * sc:
+                        # the rest must vanish
+                        if any(abs(L[i][j]) > 1e-5 * sc for i in left for j in left):
+                            ok = False
+                        break
+                    left.remove(k)
+                    for i in left:
                         f = L[i][k] / L[k][k]
-                        for j in range(k, dim):
+                        for j in left:
                             L[i][j] -= f * L[k][j]
+                    if any(L[i][i] < -1e-6 * sc for i in left):
+                        ok = False
                 if not ok:
                     ctx.violation({"kind": "E:cov-psd", "gkf": txt, "algorithm": alg}, "covariance matrix of adjusted unknowns is not positive semi-definite"); bad += 1
                     break
